@@ -14,25 +14,42 @@ from concurrent.futures import ThreadPoolExecutor
 from .. import common as C
 
 MANIFEST = dict(
-    text="Lean 4 theorems over an executable machine-arithmetic model (explicit int64/uint32/size_t widths, every "
-         "intermediate range-checked) of the size arithmetic lighttpd applies to untrusted input: "
-         "li_restricted_strtoint64, chunk-size accumulation of h1_chunked / http_chunk_decode_append_data, "
-         "http_header_parse_hoff + the 431 limits, http_range_parse incl. coalescing, buffer.c growth / "
-         "buffer_commit / ck_realloc_u32, HTTP/2 frame, padding, priority and CONTINUATION length checks: no "
-         "intermediate leaves its C type, no index leaves its array, results equal the mathematical values; "
-         "model tied to the C by differential runs of the real functions under ASan+UBSan on boundary-heavy "
-         "inputs (2^31, 2^32, 2^59, 2^63 neighbourhoods); sanitizer exploration of h2 frame streams and the "
-         "pure parsers (dates, ETag lists, Forwarded, Digest parameters) with malformed input",
-    note="partial by nature: Lean proves the size/overflow arithmetic of the model; absence of UB in pointer code "
-         "is only explored under sanitizers on generated input (paths not executed are not shown safe); "
-         "unbounded growth is covered only as far as the proved bounds (hoff lines, 64 KiB CONTINUATION cap, "
-         "range count, buffer sizes); long-running RSS/fd soaks are not part of this check",
-    tech="Lean 4 proof over hand-written model + differential correspondence (in-process C harness, ASan+UBSan)",
+    text="PARTIAL. Proved in Lean 4 (no bounds, induction over inputs and over histories of reads) over executable "
+         "machine-arithmetic models with explicit int64/uint32/size_t/unsigned-short widths: absence of signed "
+         "overflow, unintended unsigned wrap, 32-bit truncation and out-of-range array index — and nothing else — "
+         "for li_restricted_strtoint64; h1_chunked and http_chunk_decode_append_data as WHOLE CALLS resumed over "
+         "every sequence of reads (counter range, byte conservation, loop termination, and the bound on the "
+         "partial chunk-size line / trailer accumulators: < max(1024, max-request-field-size) resp. <= 1024 / "
+         "max(1024,limit)+4 bytes); http_header_parse_hoff with the limit tests of all four callers and the "
+         "'wait for more header bytes' bound; buffer.c growth incl. closure of every operation sequence under a "
+         "length limit <= 2^28; ck_realloc_u32 (conditional: when its assertion fires); the pad/priority checks of "
+         "h2_recv_headers/h2_recv_data and h2_recv_continuation (offsets, 64 KiB cap, bytes held while waiting); "
+         "http_range.c composed (strtoll clamping, suffix form, coalescing, ranges[] indices).  Each model is tied "
+         "to the real function by differential runs under ASan+UBSan (boundary-heavy inputs; thousands of small "
+         "reads per case for the accumulators).  NOT proved, only explored under sanitizers on generated input: "
+         "out-of-bounds / use-after-free / null dereference in the pointer code, h2_parse_frames as a whole, "
+         "HTTP-date, ETag, Forwarded, Digest parameters; not covered at all: descriptors, RSS over long runs, "
+         "liveness after hostile input, FastCGI record reassembly (C10's harness), HPACK decoded-size bound",
+    note="clause map — signed overflow/truncation in size arithmetic: THEOREMS for the routines named in the text, "
+         "sanitizer exploration elsewhere; out-of-bounds: theorems for hoff[], ranges[] and the CONTINUATION "
+         "scan/merge offsets only, otherwise ASan on generated input; use-after-free, null dereference: ASan/UBSan "
+         "exploration only; assertion abort: theorems for buffer.c inside the length window that "
+         "c12_buffer_closure shows closed (callers' caps on lengths are NOT derived), abort-oracle on every byte "
+         "input elsewhere; unbounded growth of memory: theorems for the chunk-line/trailer accumulators of both "
+         "chunked decoders, header accumulation (<= limit while waiting), HEADERS+CONTINUATION (< 64 KiB+9 while "
+         "waiting), <= RMAX ranges, <= 8191 header lines — request-body buffering, h2 stream/queue state and "
+         "descriptors: nothing; 'answered or closed while the process keeps serving': nothing (no end-to-end "
+         "part); quantifier 'all byte streams to the socket in both protocols': in-process exploration only. "
+         "Trusted: Lean kernel, the hand-written models as far as the correspondence streams reach, gcc, "
+         "ASan/UBSan, libc strtoll/timegm, the extractor regexes (a shape change is an error, never a default)",
+    tech="Lean 4 proof over hand-written machine-arithmetic models (single calls and histories of reads) + "
+         "differential correspondence with the real functions in-process under ASan+UBSan + sanitizer exploration",
     ref="6/C12")
 
 LEVEL = "proof"
-EXPLANATION = ("claimed partial: proof for the size arithmetic of the model, exploration under sanitizers for "
-               "the rest (DESIGN 6/C12)")
+EXPLANATION = ("claimed PARTIAL: proof for the size / index arithmetic and the accumulator bounds of the listed "
+               "routines; sanitizer exploration only for memory safety of the pointer code and for every other "
+               "routine; descriptors, long-run memory and liveness are not covered (DESIGN 6/C12)")
 
 I64MAX = 2 ** 63 - 1
 U32MAX = 2 ** 32 - 1
@@ -400,7 +417,33 @@ def gen_h1d(ctx):
         for unit in (b"X: y\r\n", b"Abc: defgh\r\n", b"Xy", b"X" * 300 + b"\r\n", b"X" * 1023):
             for cnt in sorted(set([1, 2, mf // len(unit) + 1, mf // len(unit) + 3, min(4000, 2 * mf // len(unit) + 5)])):
                 for pre in (b"0\r\n", b"5\r\nhello\r\n0\r\n", b"0\r"):
+                    if mf > 8192 and len(unit) < 300:
+                        continue        # (64 KiB trailer sections only in big pieces: keeps the model run short)
                     L.append("h1d %d %d %s %s %d %s" % (rng.choice([0, 0, 1]), mf, C.hx(pre), C.hx(unit), cnt, C.hx(rng.choice([b"\r\n", b"", b"\r\n\r\n"]))))
+    # whole calls resumed across arbitrary read boundaries (compared with the whole-call model `h1Run`)
+    n = 6000 if ctx.quick else 80000
+    for _ in range(n):
+        ok = rng.random() < 0.7
+        data = gw_stream(rng, ok)
+        if rng.random() < 0.25 and data:
+            i = rng.randrange(len(data))
+            data = data[:i] + bytes([rng.choice([0, 9, 10, 13, 32, 59, 0x67, 0x30, 0x66, 0x80, 0xff])]) + data[i + 1:]
+        if rng.random() < 0.2 and len(data) > 1:
+            data = data[:rng.randrange(1, len(data))]
+        if rng.random() < 0.05:
+            data = (b"%x" % near(rng, [2 ** 31, 2 ** 32, CK_GUARD, 2 ** 63 - 33, 2 ** 63 - 32], 3)) + b"\r\n" + data
+        segs = split_random(rng, data, rng.choice([1, 2, 2, 3, 5, 9, len(data)]))
+        L.append("h1s %d %d %s" % (rng.choice([0, 0, 0, 1]), rng.choice([8192, 8192, 16, 40, 3]), " ".join(C.hx(x) for x in segs)))
+    for d in [b"1\r\na\r\n0\r\n\r\n", b"2;x\r\nab\r\n0\r\n\r\nG"[:13], b"0\r\nA:b\r\n\r\n", b"1\r\na\rX", b"1\na\r\n0\r\n\r\n", b"0\r\n\0\r\n\r\n"]:
+        d = d[:11] if ctx.quick else d[:13]
+        for mask in range(1 << (len(d) - 1)):
+            segs, cur = [], d[:1]
+            for i in range(1, len(d)):
+                if mask >> (i - 1) & 1:
+                    segs.append(cur); cur = b""
+                cur += d[i:i + 1]
+            segs.append(cur)
+            L.append("h1s 0 8192 " + " ".join(C.hx(x) for x in segs))
     return L
 
 
@@ -1008,8 +1051,10 @@ def oracle(line, out):
         if not (0 <= int(o["te"]) <= I64MAX):
             return "chunk remaining-length counter negative / out of range"
         return None
-    if op == "h1d":
+    if op in ("h1d", "h1s"):
         o = kv(out)
+        if "te" in o and not (0 <= int(o["te"]) <= I64MAX):
+            return "chunk remaining-length counter negative / out of range"
         if int(o["maxrest"]) > max(1024, int(t[2])):
             return "h1_chunked left more than max(1024, max-request-field-size) unconsumed bytes in the read queue"
         return None
@@ -1149,8 +1194,8 @@ def classify(line, out):
         o = kv(out)
         return "%s:mf%d:%s:done%s:h%d:n%d" % (op, min(int(t[1]).bit_length(), 14), o.get("rc"), o.get("done"),
                                               int(o.get("maxh", "0")).bit_length(), min(int(o.get("n", "0")).bit_length(), 13))
-    if op == "h1d":
-        return "h1d:mf%d:%s:r%d" % (int(t[2]).bit_length(), out.split(" ")[0] + (out.split(" ")[1] if out.startswith("err") else ""),
+    if op in ("h1d", "h1s"):
+        return op + ":mf%d:%s:r%d" % (int(t[2]).bit_length(), out.split(" ")[0] + (out.split(" ")[1] if out.startswith("err") else ""),
                                     int(kv(out).get("maxrest", "0")).bit_length())
     if op == "hoff":
         hlen, cnt, maxidx, _, _ = out.split(" ")
@@ -1204,14 +1249,14 @@ def build_all(ctx):
 
 def harness_of(line):
     op = line.split(" ", 1)[0]
-    if op in ("s64", "ck1", "ck2", "hoff", "rng", "buf", "ckr", "gwd", "gws", "h1d"):
+    if op in ("s64", "ck1", "ck2", "hoff", "rng", "buf", "ckr", "gwd", "gws", "h1d", "h1s"):
         return "h_arith"
     if op in ("h2f", "h2c", "h2h", "h2d", "prio"):
         return "h_arith_h2"
     return "h_arith_px"
 
 
-MODELLED = ("s64", "ck1", "ck2", "hoff", "buf", "ckr", "h2c", "h2d", "gwd", "gws")
+MODELLED = ("s64", "ck1", "ck2", "hoff", "buf", "ckr", "h2c", "h2d", "gwd", "gws", "h1d", "h1s", "rng")
 
 
 def run(ctx):
@@ -1222,11 +1267,9 @@ def run(ctx):
     stream(ctx, "strtoint64(li_restricted_strtoint64)", [a], "arith", gen_s64(ctx), oracle, classify)
     stream(ctx, "chunk-size(h1_chunked,http_chunk_decode)", [a], "arith", gen_ck(ctx), oracle, classify)
     stream(ctx, "gw-dechunk-multiread(http_chunk_decode_append_data)", [a], "arith", gen_gw(ctx), oracle, classify)
-    stream(ctx, "explore:h1-chunked-multiread(h1_chunked)", [a], None, gen_h1d(ctx), oracle, classify)
+    stream(ctx, "h1-chunked-multiread(h1_chunked)", [a], "arith", gen_h1d(ctx), oracle, classify)
     stream(ctx, "hoff(http_header_parse_hoff)", [a], "arith", gen_hoff(ctx), oracle, classify)
-    # (http_range.c is modelled for C15 in Model/Range.lean and tied to the C by C15's own correspondence; here
-    #  the parser runs on an exact-size heap `off_t ranges[RMAX*2]` under the sanitizers + the bounds oracle)
-    stream(ctx, "explore:range(http_range_parse)", [a], None, gen_rng(ctx), oracle, classify)
+    stream(ctx, "range(http_range_parse)", [a], "arith", gen_rng(ctx), oracle, classify)
     stream(ctx, "buffer-growth(buffer.c)", [a], "arith", gen_buf(ctx), oracle, classify)
     stream(ctx, "ck_realloc_u32", [a], "arith", gen_ckr(ctx), oracle, classify)
     stream(ctx, "h2-continuation(h2_recv_continuation)", [h2], "arith", gen_h2c(ctx), oracle, classify)
@@ -1243,13 +1286,19 @@ def run(ctx):
                 "model-free malformed streams for h2 frames and the pure parsers; distinct = (operation, input "
                 "magnitude class, outcome class) tuples")
     ctx.assumptions += [
-        "exploration streams (h2_parse_frames, HTTP-date, ETag, Forwarded, Digest parameters) have no Lean model: "
-        "the claim there is 'no sanitizer report, no abort, well-formed result on the generated inputs'",
-        "buffer growth is modelled for sizes below 2^32-65 (beyond that buffer.c records a truncated size; no "
-        "untrusted input reaches such sizes: request fields <= 64 KiB, frames <= 16 MiB, reads <= 256 KiB)",
-        "hoff[0] is initialised to a value <= 8190 by every caller (all callers use 1)"]
-    ctx.notes.append("level_note: proof for the size arithmetic, sanitizer exploration for the rest; UB in code "
-                     "paths not executed by these streams is not shown absent")
+        "exploration streams (h2_parse_frames, h2_recv_headers after GOAWAY / trailers, HTTP-date, ETag, Forwarded, "
+        "Digest parameters) have no Lean model: the claim there is 'no sanitizer report, no abort, well-formed result "
+        "on the generated inputs'",
+        "buffer growth: the theorems need size <= 2^31-32 and length <= 2^32-65; c12_buffer_closure shows these are "
+        "never left while every string stays <= 2^28 bytes; that the request/response/frame paths keep their buffers "
+        "below 2^28 is the callers' caps (64 KiB fields, 16 KiB frames, 256 KiB reads), not derived",
+        "hoff[0] is initialised to a value <= 8190 by every caller (all four callers use 1)",
+        "the chunked decoders' read queue / header buffer is viewed contiguously (h1_cq_compact joins chunks before "
+        "every multi-chunk decision); gateway dribble inputs are NUL-free (strchr/strstr on gw_dechunk->b)",
+        "ck_realloc_u32: only WHEN the assertion fires is proved; that no untrusted count reaches it is not"]
+    ctx.notes.append("level_note: PARTIAL — proof for size/index arithmetic and accumulator bounds of the listed routines "
+                     "(single calls and histories of reads); sanitizer exploration for the rest; UB in code paths not "
+                     "executed by these streams is not shown absent")
 
 
 def replay_line(ctx, rep):
